@@ -28,6 +28,11 @@ func (c *Ctx) unop(in *ssa.UnOp, x Value) Value {
 		if p.IsNil() {
 			c.goPanic("nil", "nil pointer dereference (load)")
 		}
+		if c.rec != nil {
+			if v, ok := c.concLoad(p, in.Type()); ok {
+				return v
+			}
+		}
 		return copyVal(p.load())
 	case token.NOT:
 		return Not(x.(*Term))
@@ -57,6 +62,14 @@ func (c *Ctx) unop(in *ssa.UnOp, x Value) Value {
 		}
 		return BVNot(t)
 	case token.ARROW:
+		if c.rec != nil {
+			c.concEvent(ConcEvent{Kind: "ch_recv", Field: "chan"})
+			et := in.X.Type().Underlying().(*types.Chan).Elem()
+			if in.CommaOk {
+				return TupleVal{c.zero(et), False}
+			}
+			return c.zero(et)
+		}
 		ch := x.(*ChanVal)
 		if ch == nil {
 			c.unsupported("receive from nil channel")
@@ -739,6 +752,10 @@ func (c *Ctx) callBuiltin(b *ssa.Builtin, args []Value, call *ssa.CallCommon) Va
 			return nil
 		}
 	case "close":
+		if c.rec != nil {
+			c.concEvent(ConcEvent{Kind: "ch_close", Field: "chan"})
+			return nil
+		}
 		ch := args[0].(*ChanVal)
 		if ch == nil {
 			c.goPanic("chan", "close of nil channel")
